@@ -214,10 +214,18 @@ static pg_env_t pg_mk_env(bool use_mmap) {
   e.r->decoded_def_levels = cap ? pg_block(cap << 1) : NULL;
   e.r->decoded_rep_levels = cap ? pg_block(cap << 1) : NULL;
   __CPROVER_assume(e.r->decoded_ownership == CARQUET_DATA_OWNED || (use_mmap && e.r->decoded_ownership == CARQUET_DATA_VIEW));
+  /* case split over the column type (the union of the jobs covers every type):
+   * PG_FLBA=n : FIXED_LEN_BYTE_ARRAY(n);  PG_NOT_FLBA : every other type value, valid or not;
+   * neither: no restriction */
+#if defined(PG_FLBA)
+  __CPROVER_assume(e.r->type == CARQUET_PHYSICAL_FIXED_LEN_BYTE_ARRAY && e.r->type_length == PG_FLBA);
+#elif defined(PG_NOT_FLBA)
+  __CPROVER_assume(e.r->type != CARQUET_PHYSICAL_FIXED_LEN_BYTE_ARRAY);
+#endif
   if (e.r->decoded_ownership == CARQUET_DATA_OWNED) {
-    size_t vb = nondet_size_t();
-    __CPROVER_assume(vb <= CQV_MAXBUF);
-    e.r->decoded_values = (cap || nondet_bool()) ? pg_block(vb) : NULL;
+    /* owned value buffer: decoded_capacity values of the column's type (page_reader.c allocates exactly that) */
+    size_t vb = PG_VALUE_SIZE(e.r->type, e.r->type_length) * cap;
+    e.r->decoded_values = cap ? pg_block(vb) : NULL;
   } else {
     size_t off = nondet_size_t();
     __CPROVER_assume(off <= e.file_size);
